@@ -592,9 +592,10 @@ func (h *H) AppState(a *App) string {
 	var b strings.Builder
 	fmt.Fprintf(&b, "state=%s", a.state)
 	var ts []string
-	for tt, m := range a.t.m {
-		for host, v := range m {
-			if !v.IsZero() {
+	// through the type's own accessors: the harness must keep building when the representation changes
+	for _, tt := range []TimingType{NodeFailedAt, StreamFromFailedAt, MasterStuckAt, ZKHALost} {
+		for _, host := range append(h.Spec.AllHosts(), "gone", "ghost") {
+			if v := a.t.Get(tt, host); !v.IsZero() {
 				ts = append(ts, fmt.Sprintf("%s/%s=%s", tt, host, time.Since(v).Truncate(time.Second)))
 			}
 		}
